@@ -74,19 +74,22 @@ Definition obs_eqb (a b : option (list (option Z * list Z))) : bool :=
 
 def prove(ctx):
     with ctx.coq_lock():
-        # tie T: regenerate gen/PrefixGen.v from the current
-        # bdd_iterative.py / bdd.Lexer, then re-prove GenProofs/PrefixBridge.v
-        # (translated iterative translator = model on every token list) and
-        # the statements built on it
+        # tie T: regenerate gen/PrefixGen.v (bdd_iterative.py, bdd.Lexer) and
+        # gen/PrefixRecGen.v (bdd.py, omega/logic/ast.py) from the current
+        # source, then re-prove GenProofs/PrefixBridge.v and PrefixRecBridge.v
+        # (each translated translator = its model on every token list) and
+        # the statements built on them
         notes = prefix_gen.ensure_prefix(ctx)
         ctx.checker_cmds.append(
-            'PYTHONPATH=tools python3 tools/vlib/prefix_gen.py > '
-            'coq/gen/PrefixGen.v (translator tools/py2coq_prefix.py)')
+            'PYTHONPATH=tools python3 tools/vlib/prefix_gen.py [rec] > '
+            'coq/gen/PrefixGen.v, coq/gen/PrefixRecGen.v (translator '
+            'tools/py2coq_prefix.py)')
         ctx.prove_with_deps('Properties/C17.v')
     ctx.extra['translation'] = dict(
         sources=prefix_gen.SOURCES, functions=prefix_gen.FUNCTIONS,
-        generated='coq/gen/PrefixGen.v',
-        bridge='coq/GenProofs/PrefixBridge.v', notes=notes)
+        generated=['coq/gen/PrefixGen.v', 'coq/gen/PrefixRecGen.v'],
+        bridge=['coq/GenProofs/PrefixBridge.v',
+                'coq/GenProofs/PrefixRecBridge.v'], notes=notes)
     ctx.trusted.append(
         'translator tie T: tools/py2coq_prefix.py (bdd_iterative.Parser.parse, '
         '_increase, _push, _reduce, add_expr -> Gallina: any exception = None; '
@@ -103,13 +106,24 @@ def prove(ctx):
         'order, then None); the token rules of bdd.Lexer are read into a '
         'table that the bridge compares with the lexemes it relies on')
     ctx.trusted.append(
+        'translator tie T, recursive translator: bdd.Parser.parse/_recurse, '
+        'bdd.add_expr and the flatten methods of BDDNodes.Operator/Var/Num and '
+        'Nodes.Buffer/Register -> Gallina: a parsed tree = one constructor per '
+        'node class with the attributes its __init__ stores (read from bdd.py '
+        'and omega/logic/ast.py; astutils.Terminal/Operator.__init__ as '
+        'documented: trusted), x.flatten(...) = dynamic dispatch on the class, '
+        'keyword arguments / defaults / **kw as a record of optional slots '
+        '(missing or duplicate keyword = None), *arg always empty (checked), '
+        'the list passed as mem returned to the caller, list comprehensions as '
+        'loops; the four statements ending in bdd.rename are matched literally '
+        'and become one abstract operation (the back ends have no rename)')
+    ctx.trusted.append(
         'dd.autoref / dd.cudd agreement and meaning preservation of dd\'s '
         'reorder and garbage collection are NOT proved (dd is outside the '
         'model): validated differentially only, every sequence on 2 back '
         'ends x 2 translators against one model run')
     ctx.trusted.append(
-        'tie H: fol.Context / temporal.Automaton cache / the recursive '
-        'prefix translator (bdd.Parser, BDDNodes.flatten) are modelled by '
+        'tie H: fol.Context / temporal.Automaton cache are modelled by '
         'hand (theories/L3History); `add_expr` is modelled by the integer '
         'semantics of a formula fragment (+ - comparisons \\in connectives '
         'IF quantifiers), `to_expr` by its declarations and the meaning of '
